@@ -43,13 +43,16 @@ impl Drop for DTok {
         let addr = self as *const DTok as usize;
         tracker().dropped(self.id, self.chk, addr);
         // poison, so a later read or second drop of the same storage is recognisable
-        self.chk = 0xDEAD_DEAD_DEAD_DEAD;
+        // (not under Miri: OgreUnique / OgreArc keep a shared reference to the payload alive across `dealloc`, so a write from inside the destructor trips
+        //  Tree Borrows on the unchanged tree -- an aliasing-model matter none of the properties is about; Miri itself sees use-after-drop there)
+        #[cfg(not(miri))] { self.chk = 0xDEAD_DEAD_DEAD_DEAD; }
     }
 }
 
 // ------------------------------------------------------------------------------------------ drop tracker
 
-pub const MAX_IDS: usize = 1 << 17;
+#[cfg(not(miri))] pub const MAX_IDS: usize = 1 << 17;
+#[cfg(miri)] pub const MAX_IDS: usize = 1 << 12;   // (the interpreter initialises these tables slowly; Miri runs are tiny)
 
 pub struct Tracker {
     created:  Vec<AtomicU32>,
